@@ -68,7 +68,13 @@ func ruleC10Dispatch(p *Prog, r *Result) {
 	// --- maps
 	pm := newPSRule(p, r, "C10.dispatch", "bkl.process1Map", p1Opts)
 	objP := mParam("obj")
-	gc := func(ref TM) TM { return mCall("bkl.getCopy", mParam("mergeFrom"), mParam("mergeFromDocs"), ref) }
+	// the resolver: getCopy (or get itself; that what it returns is copied before use is C10.owned's business)
+	gc := func(ref TM) TM {
+		return mOr(mCall("bkl.getCopy", mParam("mergeFrom"), mParam("mergeFromDocs"), ref), mCall("bkl.get", mParam("mergeFrom"), mParam("mergeFromDocs"), ref))
+	}
+	hasResolve := func(pa *Path, ref TM) bool {
+		return hasCallEffect(pa, "bkl.getCopy", mParam("mergeFrom"), mParam("mergeFromDocs"), ref) || hasCallEffect(pa, "bkl.get", mParam("mergeFrom"), mParam("mergeFromDocs"), ref)
+	}
 	hasK := func(pa *Path, k string) int { return guardPol(pa, "has", objP, TM(mStr(k))) }
 	mergeRef := mLookup(objP, mStr("$merge"))
 	pm.all("map with $merge: the referenced value is layered onto the local content, then re-evaluated", selectPaths(pm.paths, func(pa *Path) bool { return hasK(pa, "$merge") == 1 }),
@@ -76,7 +82,7 @@ func ruleC10Dispatch(p *Prog, r *Result) {
 			if !hasEffect(pa, "mapdel", objP, mStr("$merge")) && !hasEffect(pa, "mapdel", mOp("clone", objP), mStr("$merge")) {
 				return false, "the $merge key is not removed from the local content"
 			}
-			if !hasCallEffect(pa, "bkl.getCopy", mParam("mergeFrom"), mParam("mergeFromDocs"), mergeRef) {
+			if !hasResolve(pa, mergeRef) {
 				return false, "the reference is not resolved (from the $merge value, against the current document and the document list)"
 			}
 			if guardPol(pa, "err", gc(mergeRef), nil) == 1 {
@@ -98,7 +104,7 @@ func ruleC10Dispatch(p *Prog, r *Result) {
 	replRef := mLookup(objP, mStr("$replace"))
 	pm.all("map with $replace: the referenced value replaces the map, local keys are discarded", selectPaths(pm.paths, func(pa *Path) bool { return hasK(pa, "$merge") == -1 && hasK(pa, "$replace") == 1 }),
 		"process1(copy of get(ref))", func(pa *Path) (bool, string) {
-			if !hasCallEffect(pa, "bkl.getCopy", mParam("mergeFrom"), mParam("mergeFromDocs"), replRef) {
+			if !hasResolve(pa, replRef) {
 				return false, "the $replace reference is not resolved"
 			}
 			if guardPol(pa, "err", gc(replRef), nil) == 1 {
@@ -149,7 +155,7 @@ func ruleC10Dispatch(p *Prog, r *Result) {
 		}
 		ps.all("string "+d+"path is replaced by the evaluated referenced value", selectPaths(ps.paths, func(pa *Path) bool { return guardPol(pa, "prefix", objP, q(d)) == 1 }),
 			"process1(copy of get(path))", func(pa *Path) (bool, string) {
-				if !hasCallEffect(pa, "bkl.getCopy", mParam("mergeFrom"), mParam("mergeFromDocs"), ref) {
+				if !hasResolve(pa, ref) {
 					return false, "the path after the prefix is not what is resolved"
 				}
 				if guardPol(pa, "err", gc(ref), nil) == 1 {
